@@ -33,6 +33,11 @@ from harness import tlc
 from harness.binding import LABEL_FAMILIES, quiet
 from harness.verdict import Result
 
+# the shared label families plus integers whose LARGEST label is N-1 although they are not 0..N-1 (the sampler works on
+# indices 0..N-1 internally and must translate back to the labels of the initial hypergraph whatever they are)
+LABEL_FAMILIES = dict(LABEL_FAMILIES)
+LABEL_FAMILIES["topmax"] = lambda n: [n - 1, -1, 0] + list(range(2, n - 1))
+
 INVARIANTS = ["TypeOK", "NeverSingleton", "DegNeverExceeds", "SizeCountNeverExceeds", "ExactWhenNoCoincidence",
               "MatchingMeansExhausted", "ChainComplete", "OutputWellFormed", "PostHolds"]
 ALL_MODES = {"init", "seqs", "partial", "model"}
@@ -168,7 +173,7 @@ def call_seqs(rng, n, kind=None, maxsize=6):
 
 def spec_init(rng, tier):
     n = rng.choice([3, 4, 4, 5, 5, 6])
-    fam = rng.choice(["str", "sparse", "str", "sparse", "ident", "zero"])
+    fam = rng.choice(["str", "sparse", "str", "sparse", "ident", "zero", "topmax", "neg"])
     c = call_init(rng, n)
     s = common(rng, n, tier)
     s.update(c, n=n, family=fam, labels=LABEL_FAMILIES[fam](n))
@@ -222,7 +227,7 @@ def spec_multi(rng, tier):
     'realisable': the sequences of a list of distinct hyperedges (the greedy construction mostly realises them);
     'not': equal totals concentrated on few nodes (it must run out of nodes and pad with degree-zero nodes)"""
     n = rng.choice([4, 5, 5, 6, 6])
-    fam = rng.choice(["str", "sparse", "ident", "zero"])
+    fam = rng.choice(["str", "sparse", "ident", "zero", "topmax"])
     s = common(rng, n, tier)
     calls = []
     for what in rng.choice(PLANS):
